@@ -467,10 +467,11 @@ func (t *traceSink) trackVM(line []byte) {
 	t.prevDepth = 0
 }
 
-// stackBelowCheck scans a kept TraceOut text: after every completed depth-0 instruction whose
-// opcode is in `arity` (it pops arity[op] items and pushes one), the items below the result must be
-// exactly the previous depth-0 stack minus the operands.  `args` is the initial stack (bottom first).
-func stackBelowCheck(text string, args [][]byte, arity map[string]int) string {
+// traceOps scans a kept TraceOut text and calls fn(op, before, after) for every depth-0 instruction
+// that completed (before / after = the depth-0 data stack, top first, as hex strings); the first
+// non-empty answer is returned.  `args` is the initial stack (bottom first).  The last instruction of
+// the run counts as completed only if a stack dump follows it.
+func traceOps(text string, args [][]byte, fn func(op string, before, after []string) string) string {
 	var stack0, cur []string
 	for i := len(args) - 1; i >= 0; i-- {
 		stack0 = append(stack0, fmt.Sprintf("%x", args[i]))
@@ -484,13 +485,9 @@ func stackBelowCheck(text string, args [][]byte, arity map[string]int) string {
 		if strings.HasPrefix(pending, "NOPx") {
 			next = stack0
 		}
-		if k, ok := arity[pending]; ok && len(stack0) >= k && len(next) >= 1 {
-			if strings.Join(stack0[k:], ",") != strings.Join(next[1:], ",") {
-				return fmt.Sprintf("before %s: [%s]  after: [%s]", pending, strings.Join(stack0, ","), strings.Join(next, ","))
-			}
-		}
+		bad := fn(pending, stack0, next)
 		stack0 = next
-		return ""
+		return bad
 	}
 	lines := strings.Split(text, "\n")
 	for idx, ln := range lines {
@@ -512,7 +509,6 @@ func stackBelowCheck(text string, args [][]byte, arity map[string]int) string {
 			i := strings.IndexByte(ln, ':')
 			cur = append(cur, strings.TrimSpace(ln[i+1:]))
 		}
-		// the last instruction: it completed iff a dump follows it (all listed opcodes push)
 		if idx == len(lines)-1 && len(cur) > 0 {
 			if bad := check(); bad != "" {
 				return bad
@@ -520,6 +516,60 @@ func stackBelowCheck(text string, args [][]byte, arity map[string]int) string {
 		}
 	}
 	return ""
+}
+
+// stackBelowCheck: after every completed depth-0 instruction whose opcode is in `arity` (it pops
+// arity[op] items and pushes one), the items below the result must be exactly the previous
+// depth-0 stack minus the operands.
+func stackBelowCheck(text string, args [][]byte, arity map[string]int) string {
+	return traceOps(text, args, func(op string, before, after []string) string {
+		if k, ok := arity[op]; ok && len(before) >= k && len(after) >= 1 {
+			if strings.Join(before[k:], ",") != strings.Join(after[1:], ",") {
+				return fmt.Sprintf("before %s: [%s]  after: [%s]", op, strings.Join(before, ","), strings.Join(after, ","))
+			}
+		}
+		return ""
+	})
+}
+
+// equalCheck: EQUAL pushes true iff its two operands are the same byte string (same length, same
+// bytes); an EQUALVERIFY that lets the program continue had equal operands.
+func equalCheck(text string, args [][]byte) string {
+	return traceOps(text, args, func(op string, before, after []string) string {
+		if len(before) < 2 {
+			return ""
+		}
+		same := before[0] == before[1]
+		switch op {
+		case "EQUAL":
+			if len(after) >= 1 && (after[0] == "01") != same {
+				return fmt.Sprintf("EQUAL on [%s] and [%s] pushed [%s]", before[1], before[0], after[0])
+			}
+		case "EQUALVERIFY":
+			if !same && strings.Join(before[2:], ",") == strings.Join(after, ",") {
+				return fmt.Sprintf("EQUALVERIFY on [%s] and [%s] did not fail", before[1], before[0])
+			}
+		}
+		return ""
+	})
+}
+
+// malleate returns the twin R || (S + L) of an Ed25519 signature R || S (L = the group order):
+// the same group equation holds, but a verifier that checks S < L must reject it.
+func malleate(sig []byte) []byte {
+	if len(sig) != 64 {
+		return cp(sig)
+	}
+	l, _ := new(big.Int).SetString("7237005577332262213973186563042994240857116359379907606001950938285454250989", 10)
+	s := new(big.Int).Add(leToBig(sig[32:]), l)
+	b := leBytes(s)
+	if len(b) > 32 {
+		return cp(sig)
+	}
+	out := make([]byte, 64)
+	copy(out, sig[:32])
+	copy(out[32:], b)
+	return out
 }
 
 type vmResult struct {
